@@ -9,7 +9,7 @@ mod harnesses {
     use serde_amqp::{from_slice, serialized_size, to_vec};
 
     #[kani::proof]
-    #[kani::unwind(20)]
+    #[kani::unwind(32)]
     fn rt_disposition_scalars() {
         let d = Disposition {
             role: if kani::any() { Role::Sender } else { Role::Receiver },
@@ -26,7 +26,7 @@ mod harnesses {
     }
 
     #[kani::proof]
-    #[kani::unwind(24)]
+    #[kani::unwind(32)]
     fn rt_flow_scalars() {
         let f = Flow {
             next_incoming_id: if kani::any() { Some(kani::any()) } else { None },
